@@ -225,6 +225,7 @@ let () =
         with Failure m -> Printf.printf "ERROR %s %s\n" path m) files;
     exit 0
   end;
+  if mode = "sreplay" then (List.iter Shared.replay_file files; exit 0);
   if mode <> "replay" then (prerr_endline ("unknown mode " ^ mode); exit 2);
   List.iter (fun path ->
       try
